@@ -191,10 +191,21 @@ PROPS = {
     ),
     'C16': dict(
         title='Components listings, lookups and events stay mutually consistent',
-        contracts=[], falsifier='C16', modes=['py'], level='other',
-        level_text='Bounded only so far: random histories (<=8 calls) of the eight methods and re-initialisation with hashable/unhashable/equal components against a list-based reference; two recorded event-clause deviations are announced as KNOWN-FINDING.',
-        level_note='bounded; event clause: two known findings',
-        explanation='bounded run-time contract checking of the real code against an executable specification written from the statement; no obligation discharged yet for this property',
+        contracts=['C16_components'], falsifier='C16', modes=['py'], level='other',
+        level_text="Verified from the real bodies of registry.py for all contents of the four listings: registerUtility/unregisterUtility "
+                   "(Components and the _UtilityRegistrations helper), registerAdapter/unregisterAdapter, registerSubscriptionAdapter/"
+                   "unregisterSubscriptionAdapter, registerHandler/unregisterHandler change the listing and the underlying registry under "
+                   "the same key with the same value and nothing else (mirror clauses over ghost maps of the registries), return whether "
+                   "something was removed, leave everything untouched on a no-op or an argument error, and append exactly the events of the "
+                   "statement (replaced utility: Unregistered then Registered; no-op: none); the four registered*() generators yield exactly "
+                   "one registration object per recorded entry in order; the property _utility_registrations_cache returns an object bound to "
+                   "the current registry and listing; the ==-searched _UnhashableComponentCounter get/set/del act on the first equal entry. "
+                   "The literal event clause is PROVED outside the two recorded regions and fails unrestricted (two KNOWN-FINDINGs). The "
+                   "counter cache arithmetic (__cache_utility/__uncache_utility/_is_utility_subscribed), re-initialisation and "
+                   "rebuildUtilityRegistryFromLocalCache are checked bounded on random histories (<= 8 calls).",
+        level_note='underlying registry mutators by the abstract contracts of C09 (assumed here, bodies under contract there); counter cache '
+                   'helpers assumed; helper inspectors (_getAdapterRequired ...) are oracles; event clause: two known findings',
+        explanation='mutators, listings and events proved against mirror/event contracts; counter cache, re-initialisation and rebuild bounded; two recorded deviations from the literal event clause',
     ),
     'C19': dict(
         title='super() proxies see only the remainder of the MRO',
